@@ -96,6 +96,10 @@ namespace awkward {
     void
       end_list(LayoutBuilder* builder) override;
 
+    /// @brief If `true`, this node has an unfinished list in its content.
+    bool
+      active() override;
+
   private:
     /// @brief ByteMaskedForm that defines the BitMaskedArray.
     const ByteMaskedFormPtr form_;
